@@ -8,6 +8,8 @@ use serde_json::{json, Value as Json};
 
 pub mod c07;
 pub mod c11;
+pub mod c02;
+pub mod c03;
 pub mod c08;
 pub mod c09;
 pub mod c10;
@@ -19,6 +21,7 @@ pub mod c16;
 pub mod c17;
 pub mod c18;
 pub mod c20;
+pub mod crypto;
 
 #[derive(Clone, Copy, Debug, PartialEq, Eq, PartialOrd, Ord)]
 pub enum Scale {
@@ -175,10 +178,17 @@ pub fn array_product(ex: &Ex, space: &str, slots: &[Item], arity: usize, offer: 
 /// Every place a header map can occur: (description, type to decode, message bytes).  `map` is the
 /// encoded header map.  Valid filler everywhere else, so the verdict hinges on the map alone.
 pub fn header_carriers(map: &[u8], all: bool) -> Vec<(&'static str, Ty, Vec<u8>)> {
-    let pb = wrap_bstr(map);
+    header_carriers_with(map, &wrap_bstr(map), all)
+}
+
+/// As `header_carriers`, with the encoded byte string `pb` (which may be chunked or use a wide
+/// head) used wherever the map is carried as a protected header.
+pub fn header_carriers_with(map: &[u8], pb: &[u8], all: bool) -> Vec<(&'static str, Ty, Vec<u8>)> {
+    let pb = pb.to_vec();
     let e0: &[u8] = &[0x40];
     let m0: &[u8] = &[0xa0];
     let nil: &[u8] = &[0xf6];
+    let pl: &[u8] = &[0x41, 0x70];
     let sig_with = |prot: &[u8], unprot: &[u8]| cat(&[&[0x83], prot, unprot, &[0x41, 0xaa]]);
     let rec_with = |prot: &[u8], unprot: &[u8]| cat(&[&[0x83], prot, unprot, &[0x42, 0x63, 0x74]]);
     let sigs1 = cat(&[&[0x81], &sig_with(e0, m0)]);
@@ -206,23 +216,23 @@ pub fn header_carriers(map: &[u8], all: bool) -> Vec<(&'static str, Ty, Vec<u8>)
             ("Sign.unprotected", Ty::Sign, cat(&[&[0x84], e0, map, nil, &sigs1])),
             ("Sign.signer0.protected", Ty::Sign, cat(&[&[0x84], e0, m0, nil, &[0x81], &sig_p])),
             ("Sign.signer1.unprotected", Ty::Sign, cat(&[&[0x84], e0, m0, nil, &[0x82], &sig_with(e0, m0), &sig_u])),
-            ("Mac.protected", Ty::Mac, cat(&[&[0x85], &pb, m0, nil, e0, &recs1])),
-            ("Mac.unprotected", Ty::Mac, cat(&[&[0x85], e0, map, nil, e0, &recs1])),
-            ("Mac.recipient.protected", Ty::Mac, cat(&[&[0x85], e0, m0, nil, e0, &[0x81], &rec_p])),
-            ("Mac.recipient.recipient.unprotected", Ty::Mac, cat(&[&[0x85], e0, m0, nil, e0, &[0x81], &rec_nested_u])),
-            ("Mac0.protected", Ty::Mac0, cat(&[&[0x84], &pb, m0, nil, e0])),
-            ("Mac0.unprotected", Ty::Mac0, cat(&[&[0x84], e0, map, nil, e0])),
-            ("Encrypt.protected", Ty::Encrypt, cat(&[&[0x84], &pb, m0, nil, &recs1])),
-            ("Encrypt.recipient.unprotected", Ty::Encrypt, cat(&[&[0x84], e0, m0, nil, &[0x81], &rec_u])),
-            ("Encrypt.recipient.recipient.protected", Ty::Encrypt, cat(&[&[0x84], e0, m0, nil, &[0x81], &rec_nested_p])),
-            ("Encrypt0.protected", Ty::Encrypt0, cat(&[&[0x83], &pb, m0, nil])),
-            ("Encrypt0.unprotected", Ty::Encrypt0, cat(&[&[0x83], e0, map, nil])),
+            ("Mac.protected", Ty::Mac, cat(&[&[0x85], &pb, m0, pl, e0, &recs1])),
+            ("Mac.unprotected", Ty::Mac, cat(&[&[0x85], e0, map, pl, e0, &recs1])),
+            ("Mac.recipient.protected", Ty::Mac, cat(&[&[0x85], e0, m0, pl, e0, &[0x81], &rec_p])),
+            ("Mac.recipient.recipient.unprotected", Ty::Mac, cat(&[&[0x85], e0, m0, pl, e0, &[0x81], &rec_nested_u])),
+            ("Mac0.protected", Ty::Mac0, cat(&[&[0x84], &pb, m0, pl, e0])),
+            ("Mac0.unprotected", Ty::Mac0, cat(&[&[0x84], e0, map, pl, e0])),
+            ("Encrypt.protected", Ty::Encrypt, cat(&[&[0x84], &pb, m0, pl, &recs1])),
+            ("Encrypt.recipient.unprotected", Ty::Encrypt, cat(&[&[0x84], e0, m0, pl, &[0x81], &rec_u])),
+            ("Encrypt.recipient.recipient.protected", Ty::Encrypt, cat(&[&[0x84], e0, m0, pl, &[0x81], &rec_nested_p])),
+            ("Encrypt0.protected", Ty::Encrypt0, cat(&[&[0x83], &pb, m0, pl])),
+            ("Encrypt0.unprotected", Ty::Encrypt0, cat(&[&[0x83], e0, map, pl])),
             ("Recipient.protected", Ty::Recipient, rec_p.clone()),
             ("Recipient.recipient.protected", Ty::Recipient, rec_nested_p.clone()),
             ("Header.countersig.protected", Ty::Header, hdr_cs_p.clone()),
             ("Header.countersig.unprotected", Ty::Header, hdr_cs_u.clone()),
             ("Header.countersigs[1].protected", Ty::Header, hdr_cs2_p.clone()),
-            ("Sign1.protected.countersig.protected", Ty::Sign1, cat(&[&[0x84], &wrap_bstr(&hdr_cs_p), m0, nil, e0])),
+            ("Sign1.protected.countersig.protected", Ty::Sign1, cat(&[&[0x84], &wrap_bstr(&hdr_cs_p), m0, &[0x41, 0x70], e0])),
             ("SuppPubInfo.protected", Ty::SuppPub, cat(&[&[0x82, 0x18, 0x80], &pb])),
             ("KdfContext.supp_pub.protected", Ty::Kdf, cat(&[&[0x84, 0x26, 0x83, 0xf6, 0xf6, 0xf6, 0x83, 0xf6, 0xf6, 0xf6, 0x82, 0x18, 0x80], &pb])),
         ]);
@@ -234,6 +244,10 @@ pub fn header_carriers(map: &[u8], all: bool) -> Vec<(&'static str, Ty, Vec<u8>)
 /// counts as vacuous.
 pub fn run(rep: &Report) -> Option<u64> {
     match rep.id.as_str() {
+        "C02" => Some(c02::run(rep)),
+        "C03" => Some(c03::run_c03(rep)),
+        "C04" => Some(c03::run_c04(rep)),
+        "C05" => Some(c03::run_c05(rep)),
         "C07" => Some(c07::run(rep)),
         "C08" => Some(c08::run(rep)),
         "C09" => Some(c09::run(rep)),
@@ -254,6 +268,7 @@ pub fn run(rep: &Report) -> Option<u64> {
 /// Oracle components a property applies to decode cases.
 pub fn checks_for(pid: &str) -> Checks {
     match pid {
+        "C02" => c02::CHECKS,
         "C07" => c07::CHECKS,
         "C08" => c08::CHECKS,
         "C09" => c09::CHECKS,
